@@ -74,8 +74,9 @@ Section Thms.
     pose proof (conforms b req) as H. destruct (serve b req) as [[b' tr] r]. intros S.
     destruct (H S) as (resp' & E & K).
     unfold spec_ok in K. repeat (apply andb_true_iff in K as [K ?]).
-    match goal with A : args_ok _ _ = true |- _ => unfold args_ok in A; rewrite forallb_forall in A end.
-    apply Forall_forall. intros e He. specialize (H1 e He). destruct e; auto.
+    match goal with A : args_ok _ _ = true |- _ =>
+      unfold args_ok in A; rewrite forallb_forall in A;
+      apply Forall_forall; intros e He; specialize (A e He); destruct e; auto end.
   Qed.
 
   Lemma all_closed b req :
@@ -85,6 +86,18 @@ Section Thms.
     pose proof (conforms b req) as H. destruct (serve b req) as [[b' tr] r]. intros S.
     destruct (H S) as (resp' & E & K).
     unfold spec_ok in K. repeat (apply andb_true_iff in K as [K ?]). assumption.
+  Qed.
+
+  Lemma failures_answered b req :
+    let '(_, tr, r) := serve b req in
+    in_scope tr -> forall resp, r = Ok resp ->
+    existsb call_failed tr = true -> exists w, p_json resp = Some (JErr w).
+  Proof.
+    pose proof (conforms b req) as H. destruct (serve b req) as [[b' tr] r]. intros S resp ->.
+    destruct (H S) as (resp' & E & K). inversion E. subst resp'.
+    unfold spec_ok in K. repeat (apply andb_true_iff in K as [K ?]).
+    match goal with A : errors_answered _ _ = true |- _ => unfold errors_answered, is_failure in A end.
+    intros F. rewrite F in *. destruct (p_json resp) as [[| | |w]|]; try discriminate. eauto.
   Qed.
 
 End Thms.
